@@ -26,7 +26,12 @@ code; upstream row = inverse image of downstream, each cell once; area = outlet 
 chain reaches the outlet without passing through an inlet (empty when nothing drains), each once, ok whenever
 the buffer is large enough and no cycle passes through the outlet, error or bounded result otherwise;
 filled ⊇ area inside its padded bounding box; flow path = chain to the outlet, 1 per orthogonal and sqrt(2) per
-diagonal step; river = downstream chain with cumulated Euclidean distance.
+diagonal step; river = downstream chain with cumulated Euclidean distance. The oracle only speaks inside the property's
+quantifier: arguments off the grid (query cells, outlet, inlets, river start, nval < 1) are compared with the model but
+never flagged; on a flow cycle (through the outlet for the area, anywhere on the chain for a river / flow path) an error
+OR a bounded result (a prefix of the true chain, at most nval cells) is accepted; exception classes, message texts and
+the dtypes of the result tables are not observables (any exception is 'an error'; an error whose kernel code cannot be
+resolved against the current source is compared as a generic error).
 
 Cases: exhaustive — every grid of 1x1, 1x2, 2x1 (and 2x2; thorough: 1x3, 3x1, 2x3, 3x2 sampled to the budget,
 3x3 over a reduced alphabet) over {8 ESRI codes, 0, 7 (invalid)} x every cell (down, up, river) x every outlet
